@@ -20,6 +20,7 @@ import (
 	"regexp"
 	"sort"
 	"strings"
+	"testing/synctest"
 	"time"
 
 	"github.com/libp2p/go-libp2p/core/peer"
@@ -102,6 +103,15 @@ func (in *vfC13Inst) Apply(ev string, judge bool) string {
 	g := in.g
 	x := in.target
 	in.lastEv = ev
+	// a stream goroutine the explorer is holding at a yield point gets to run: descheduling ends, it is not for ever
+	g.ymu.Lock()
+	g.yArmed = map[string]bool{}
+	g.ymu.Unlock()
+	_, parkedY := g.yieldState()
+	for _, k := range parkedY {
+		g.releaseYield(k)
+	}
+	synctest.Wait()
 	// close everything that belongs to the peer
 	if g.conn[x] {
 		g.apply("disc:" + x)
@@ -182,6 +192,14 @@ func vfC13Scenarios(thorough bool) []*vfGWScenario {
 		out = append(out, &vfGWScenario{Name: "leave-queueless", Cfg: vfGWCfg{Router: "gossip", Peers: peers, Topics: []string{"t"}, Params: "d2", Scoring: true, ScoreTopics: true,
 			Gater: true, TestExt: true, DecayMs: 1030, ScoreSeenS: 5, SeenTTL: 5, Prefix: []string{"conn:q", "sub:q:t", "join:t"}},
 			Alphabet: []string{"hold:p", "failstream:p", "conn:p", "release:p", "sub:p:t", "graft:p:t", "leave:t", "join:t", "inclose:p", "disc:p", "hb"}, Msgs: msgs, Depth: d, Leaf: []string{"retire"}})
+	}
+	// the goroutine that has just opened the outbound stream is descheduled before it tells the event loop (named yield
+	// point of the verif hooks); the peer goes away in the meantime, and the loop learns of the new stream afterwards
+	{
+		peers := []vfPeerCfg{{Name: "p", Proto: "v12", IP: "10.0.0.1"}, {Name: "q", Proto: "v12", IP: "10.0.0.2"}}
+		out = append(out, &vfGWScenario{Name: "late-stream-notice", Cfg: vfGWCfg{Router: "gossip", Peers: peers, Topics: []string{"t"}, Params: "d2", Scoring: true, ScoreTopics: true,
+			Gater: true, TestExt: true, DecayMs: 1030, ScoreSeenS: 5, SeenTTL: 5, Prefix: []string{"conn:q", "sub:q:t", "join:t"}},
+			Alphabet: []string{"holdy:outbound-opened:p", "rely:outbound-opened:p", "conn:p", "disc:p", "inclose:p", "sub:p:t", "graft:p:t", "hb"}, Msgs: msgs, Depth: d, Leaf: []string{"retire"}})
 	}
 	// two peers behind one IP address (the gater and the scorer keep per-IP state shared between them)
 	for _, proto := range []string{"v11"} {
